@@ -352,7 +352,7 @@ func (m *gmodel) apply(st Step) {
 // owner/admin of the 2nd-level ancestor, of the record token, of a child, the new owner/admin, a stranger,
 // the committee (and its look-alikes).
 func (m *gmodel) roles(n, o string) map[string]string {
-	R := map[string]string{"stranger": "X", "committee": "CMT", "member": "M1", "alphabet": "ALPHA", "new": o}
+	R := map[string]string{"stranger": "X", "committee": "CMT", "member": "M1", "alphabet": "ALPHA", "half": "HALF", "new": o}
 	put := func(role string, x *nst) {
 		if x != nil {
 			R[role+"Owner"], R[role+"Admin"] = x.owner, x.admin
